@@ -35,7 +35,9 @@ pub fn draw_case(prop: &str, engine: &str, seed: u64, tier: &str) -> Case {
     }
     let mut r = Rng::new(mix(seed, 0xC0F1));
     let mut c = Case::new(prop, engine, seed);
-    c.pagesize = *r.pick(&[1024, 1024, 1024, 1024, 2048, 4096]);
+    // mostly small power-of-two pages (deep trees with few keys); one run in eight uses a legal
+    // page size that is not a power of two
+    c.pagesize = *r.pick(&[1024, 1024, 1024, 1024, 2048, 4096, 1024, 1032]);
     if tier == "thorough" && r.chance(1, 12) {
         c.pagesize = *r.pick(&[1032, 3000, 5000, 16384]);
     }
